@@ -2499,3 +2499,144 @@ func init() {
 	registry["C03"].Meta.Rules["C03.18"] = txt
 	registry["C03"].Rules = append(registry["C03"].Rules, func(c *Ctx, r *Result) { serializerLoopRule(c, r, "C03.18", nil, 1) })
 }
+
+// ---- a length prefix is the length of what follows it (C03.19 / C11.13) ----
+//
+// PutUintN(buf[o:o+N], uintN(len(X))); o += N; copy(buf[o:], Y): the decoder reads N bytes of length and then that many bytes.
+// X and Y are the same value. The rule pairs each length store whose value is len(X) with the next copy into the same buffer
+// that follows it in program order (same block) and compares the sources.
+func lengthPrefixRule(c *Ctx, r *Result, rule string, scope func(string) bool, floor int) {
+	fb := func(fn *ssa.Function) *FB { return c.FB(fn) }
+	n := 0
+	for _, fn := range c.LibFuncs() {
+		if fn.Blocks == nil || (scope != nil && !scope(c.Name(fn))) {
+			continue
+		}
+		k := 0
+		for _, b := range fn.Blocks {
+			for i, in := range b.Instrs {
+				call, ok := in.(ssa.CallInstruction)
+				if !ok {
+					continue
+				}
+				com := call.Common()
+				name := ""
+				if com.IsInvoke() {
+					name = com.Method.Name()
+				} else if f := com.StaticCallee(); f != nil {
+					name = f.Name()
+				}
+				if !strings.HasPrefix(name, "PutUint") || len(com.Args) < 2 {
+					continue
+				}
+				val := stripConv(com.Args[len(com.Args)-1])
+				lc, isCall := val.(*ssa.Call)
+				if !isCall {
+					continue
+				}
+				if bl, isB := lc.Call.Value.(*ssa.Builtin); !isB || bl.Name() != "len" {
+					continue
+				}
+				X := lc.Call.Args[0]
+				dstBuf := stripSlices(com.Args[len(com.Args)-2])
+				// next copy into the same buffer in this block
+				for _, in2 := range b.Instrs[i+1:] {
+					c2, ok := in2.(*ssa.Call)
+					if !ok {
+						continue
+					}
+					if bl, isB := c2.Call.Value.(*ssa.Builtin); !isB || bl.Name() != "copy" {
+						if c2.Common().IsInvoke() && strings.HasPrefix(c2.Common().Method.Name(), "PutUint") {
+							break // another field comes first: not a length-prefixed byte string
+						}
+						continue
+					}
+					if stripSlices(c2.Call.Args[0]) != dstBuf {
+						continue
+					}
+					// the copy starts exactly where the length field ends
+					width := int64(0)
+					switch {
+					case strings.HasSuffix(name, "16"):
+						width = 2
+					case strings.HasSuffix(name, "32"):
+						width = 4
+					case strings.HasSuffix(name, "64"):
+						width = 8
+					}
+					lowOf := func(v ssa.Value) (Lin, bool) {
+						sl, isSl := v.(*ssa.Slice)
+						if !isSl {
+							return Lin{}, false
+						}
+						if _, deeper := sl.X.(*ssa.Slice); deeper {
+							return Lin{}, false
+						}
+						if sl.Low == nil {
+							return linConst(0), true
+						}
+						return fb(fn).lin(sl.Low), true
+					}
+					l1, ok1 := lowOf(com.Args[len(com.Args)-2])
+					l2, ok2 := lowOf(c2.Call.Args[0])
+					if !ok1 || !ok2 || width == 0 {
+						break
+					}
+					if d := l2.add(l1, -1); !d.isConst() || d.C != width {
+						break
+					}
+					Y := c2.Call.Args[1]
+					n++
+					k++
+					xs, ys := stripSlices(stripStringConv(X)), stripSlices(stripStringConv(Y))
+					same := xs == ys || fb(fn).canon(xs) == fb(fn).canon(ys)
+					if kx, _ := fieldLoadKey(xs); kx != "" && !same {
+						ky, _ := fieldLoadKey(ys)
+						same = kx == ky && fieldLoadBase(xs) == fieldLoadBase(ys)
+					}
+					r.Check(same, rule, fmt.Sprintf("%s#length-prefix-%d", c.Name(fn), k), c.InstrPos(in), "the length stored is len("+X.Name()+"), the bytes that follow are "+Y.Name()+map[bool]string{true: "", false: " - a different value: the decoder reads the wrong number of bytes"}[same])
+					break
+				}
+			}
+		}
+	}
+	if n < floor {
+		r.Shortfall(c, rule, fmt.Sprintf("%s: only %d length-prefixed byte strings found (expected >= %d)", rule, n, floor))
+	}
+}
+
+// stripStringConv: []byte(s) / string(b) conversions of the same value.
+func stripStringConv(v ssa.Value) ssa.Value {
+	for {
+		switch x := v.(type) {
+		case *ssa.Convert:
+			v = x.X
+			continue
+		case *ssa.ChangeType:
+			v = x.X
+			continue
+		}
+		return v
+	}
+}
+
+func init() {
+	txt := "a length prefix is the length of what follows it: where a PutUintN stores len(X) and the next copy into the same buffer stores Y, X and Y are the same value (the object-path length of an external link written from the file name's length makes the path decode short, or not at all)"
+	registry["C03"].Meta.Rules["C03.19"] = txt
+	registry["C03"].Rules = append(registry["C03"].Rules, func(c *Ctx, r *Result) { lengthPrefixRule(c, r, "C03.19", nil, 2) })
+	registry["C11"].Meta.Rules["C11.13"] = txt + " (shared with C03.19)"
+	registry["C11"].Rules = append(registry["C11"].Rules, func(c *Ctx, r *Result) { lengthPrefixRule(c, r, "C11.13", nil, 2) })
+}
+
+// fieldLoadBase: the object whose field v loads (nil when v is not a field load).
+func fieldLoadBase(v ssa.Value) ssa.Value {
+	u, ok := v.(*ssa.UnOp)
+	if !ok {
+		return nil
+	}
+	fa, ok := u.X.(*ssa.FieldAddr)
+	if !ok {
+		return nil
+	}
+	return fa.X
+}
